@@ -45,6 +45,8 @@ LEAVES = [
 ]
 RAW_BOOL = {(1, 0): 1, (0, 0): -1, (0, 1, 0): 2}
 RAW_SPIN = {(1, 0): 1, (0, 0): -1, (0, 1, 0): 2, (2, 2, 2): 1}
+# a squared label that the other operand may never have seen, on terms it may already hold (z0 z2^2 = z0)
+RAW2 = {(0, 2, 2): 2, (1, 2, 2): 3, (1, 1): -1}
 
 
 def containers(kind):
@@ -54,6 +56,8 @@ def containers(kind):
 def leaf_dict(kind, idx):
     if idx == "raw":
         return RAW_SPIN if kind == "spin" else RAW_BOOL
+    if idx == "raw2":
+        return RAW2
     return LEAVES[idx]
 
 
@@ -77,6 +81,7 @@ def operand_menu(kind, scheme):
             if leaf_ok(cont, D):
                 out.append(["leaf", cont, i])
     out.append(["leaf", "dict", "raw"])
+    out.append(["leaf", "dict", "raw2"])
     return out
 
 
@@ -406,7 +411,7 @@ def _opclass(op):
 def value_cases():
     for kind in ("bool", "spin"):
         for scheme in gen.LABELLED_SCHEMES:
-            for idx in list(range(len(LEAVES))) + ["raw"]:
+            for idx in list(range(len(LEAVES))) + ["raw", "raw2"]:
                 yield {"kind": kind, "scheme": scheme, "leaf": idx}
 
 
@@ -418,7 +423,7 @@ def check_values(case, st):
     D = gen.relabel(leaf_dict(kind, idx), scheme, 3)
     table = rp.tt(D, labels, spin)
     st.nontrivial += 1 if len(D) >= 2 else 0
-    conts = ["dict"] if idx == "raw" else containers(kind)
+    conts = ["dict"] if idx in ("raw", "raw2") else containers(kind)
     for cont in conts:
         if cont in gen.MATRIX and scheme not in gen.MATRIX_SCHEMES:
             continue
@@ -440,7 +445,7 @@ def check_values(case, st):
                     st.traces += 1
                     r, _w = call(getattr(qv.utils, fn), x, M)
                     if isinstance(r, Raised) or abs(r - table[a]) > 1e-9:
-                        st.violation("%s|%s|%s" % (fn, fname, "raw" if idx == "raw" else "canonical"), dict(case, container=cont, part="values"),
+                        st.violation("%s|%s|%s" % (fn, fname, "raw" if idx in ("raw", "raw2") else "canonical"), dict(case, container=cont, part="values"),
                                      "C05 %s(%r, %s %s) = %r, direct evaluation gives %r" % (fn, x, cont, short(dict(M)), r, table[a]))
             if snap(M) != before:
                 st.violation("%s|argument-mutated" % fn, dict(case, container=cont, part="values"), "C05 %s changed its model argument" % fn)
@@ -512,7 +517,7 @@ def check_extreme(case, st):
 
 def run(ctx):
     depth = 2 if ctx.quick else 3
-    ctx.bounds = {"variables": 3, "leaves": [rp.jdict(x) for x in LEAVES], "raw_dict_leaf": rp.jdict(RAW_BOOL), "numbers": NUMBERS, "divisors": DIVS,
+    ctx.bounds = {"variables": 3, "leaves": [rp.jdict(x) for x in LEAVES], "raw_dict_leaf": rp.jdict(RAW_BOOL), "raw_dict_leaf_2": rp.jdict(RAW2), "numbers": NUMBERS, "divisors": DIVS,
                   "schemes": SCHEMES, "extreme_scalars": [[o, repr(c)] for o, c in EXTREME], "expression_depth": depth, "coef_bound": COEF_BOUND, "ops_per_state": len(op_menu("bool", "int"))}
     ctx.rule = ("state = (kind, labels, type, stored dict) reached by an expression history; every operator application from every state up to the depth; "
                 "non-trivial = value has >= 2 terms; plus the value functions on every leaf x container x label scheme x assignment x sequence form")
